@@ -25,8 +25,8 @@ ANNOT_HEADER = ['seq_id', 'gene_id', 'transcript_id', 'cds_start', 'cds_end']
 
 # ---------------------------------------------------------------- writing inputs
 
-def _write(fp: str, text: str) -> None:
-    with open(fp, 'w') as fh:
+def _write(fp: str, text: str, bom: bool = False) -> None:
+    with open(fp, 'w', encoding='utf-8-sig' if bom else None) as fh:     # utf-8-sig: a byte-order mark first (the loaders sniff the encoding)
         fh.write(text)
 
 
@@ -114,11 +114,12 @@ def materialise(d: dict, root: str, out_name: str = 'out') -> list[str]:
 
         def both(recs):
             return list(recs) + ([dict(r, contig=c2) for r in recs if r.get('contig', contig) == contig] if c2 else [])
-        _write(os.path.join(root, 'targetons.tsv'), ''.join('\t'.join(r) + '\n' for r in rows))
+        bom = set(d.get('bom') or [])        # text inputs written with a byte-order mark: 'targetons', 'gtf', 'manifest', 'mask'
+        _write(os.path.join(root, 'targetons.tsv'), ''.join('\t'.join(r) + '\n' for r in rows), 'targetons' in bom)
         argv = ['sge', os.path.join(root, 'targetons.tsv'), os.path.join(root, 'ref.fa'),
                 os.path.join(root, out_name), d.get('species', 'sp'), d.get('assembly', 'asm')]
         if d.get('gtfs'):       # several transcripts (harness/merge.py)
-            _write(os.path.join(root, 'annot.gtf'), ''.join(gtf_text(c_, s_, g_) for c_, s_, g_ in d['gtfs']))
+            _write(os.path.join(root, 'annot.gtf'), ''.join(gtf_text(c_, s_, g_) for c_, s_, g_ in d['gtfs']), 'gtf' in bom)
             argv += ['--gff', os.path.join(root, 'annot.gtf')]
         elif d.get('gtf'):
             gt = gtf_text(contig, d['strand'], d['gtf'])
@@ -126,7 +127,7 @@ def materialise(d: dict, root: str, out_name: str = 'out') -> list[str]:
                 g2 = dict(d['gtf'], gene_id=(d['gtf']['gene_id'] + '_2' if d['gtf'].get('gene_id') else d['gtf'].get('gene_id')),
                           transcript_id=(d['gtf']['transcript_id'] + '_2' if d['gtf'].get('transcript_id') else d['gtf'].get('transcript_id')))
                 gt += gtf_text(c2, d['strand'], g2)
-            _write(os.path.join(root, 'annot.gtf'), gt)
+            _write(os.path.join(root, 'annot.gtf'), gt, 'gtf' in bom)
             argv += ['--gff', os.path.join(root, 'annot.gtf')]
         if d.get('pam') is not None:
             recs = [{'pos': p['pos'], 'ref': p['ref'], 'alts': [p['alt']], 'contig': p.get('contig', contig),
@@ -143,14 +144,18 @@ def materialise(d: dict, root: str, out_name: str = 'out') -> list[str]:
                     tags = list(v.get('declared_tags') if v.get('declared_tags') is not None else
                                 ([v['id_tag']] if v.get('id_tag') else []))
                     _write(fp, vcf_text(contig_lens, both(v['records']), tags, {v['id_tag']: v['id_type']} if v.get('id_tag') and v.get('id_type') else None))
+                    if v.get('indexed'):
+                        import pysam
+                        pysam.tabix_index(fp, preset='vcf', force=True)      # -> fp.gz (bgzip) + fp.gz.tbi; the plain file is removed
+                        fp += '.gz'
                 man.append([v['alias'], v.get('id_tag') or '', fp])
-            _write(os.path.join(root, 'manifest.csv'), ''.join(','.join(r) + '\n' for r in man))
+            _write(os.path.join(root, 'manifest.csv'), ''.join(','.join(r) + '\n' for r in man), 'manifest' in bom)
             argv += ['--vcf', os.path.join(root, 'manifest.csv')]
         if d.get('bg') is not None:
             _write(os.path.join(root, 'bg.vcf'), vcf_text(contig_lens, both(d['bg']), []))
             argv += ['--bg', os.path.join(root, 'bg.vcf')]
         if d.get('mask') is not None:
-            _write(os.path.join(root, 'mask.bed'), ''.join('\t'.join(map(str, r)) + '\n' for r in list(d['mask']) + ([[c2] + list(r[1:]) for r in d['mask'] if r[0] == contig] if c2 else [])))
+            _write(os.path.join(root, 'mask.bed'), ''.join('\t'.join(map(str, r)) + '\n' for r in list(d['mask']) + ([[c2] + list(r[1:]) for r in d['mask'] if r[0] == contig] if c2 else [])), 'mask' in bom)
             argv += ['--bg-mask', os.path.join(root, 'mask.bed')]
         if o.get('revcomp'):
             argv.append('--revcomp-minus-strand')
